@@ -10,7 +10,8 @@ Inductive fault :=
 | FAdd (sig : nat)                (* signals[sig] is appended with value 7 *)
 | FDup (i : nat)                  (* the i-th output is listed again at the end *)
 | FSwap (i j : nat)               (* outputs i and j change places *)
-| FSubst (i sig : nat).           (* the i-th output is attributed to signals[sig] *)
+| FSubst (i sig : nat)            (* the i-th output is attributed to signals[sig] *)
+| FWiden (i : nat).               (* the i-th output is reported for a signal of the same name and type with one more bit *)
 
 Record script := {
   sc_layout : list nat;              (* indices into the bound signal list, in answer order *)
@@ -59,6 +60,11 @@ Definition apply_fault (sigs : list signal) (f : fault) (outs : list out_entry) 
                   | Some o, Some sg => list_set outs i {| oe_sig := sg; oe_val := oe_val o |}
                   | _, _ => outs
                   end
+  | FWiden i => match nth_error outs i with
+                | Some o => list_set outs i {| oe_sig := {| sname := sname (oe_sig o); sbits := N.succ (sbits (oe_sig o)); styp := styp (oe_sig o) |};
+                                               oe_val := oe_val o |}
+                | None => outs
+                end
   end.
 
 Definition fault_at (sc : script) (k : nat) : option fault :=
